@@ -94,8 +94,8 @@ def gaussian_vs_fock(ctx, pq, rng, quick):
                 has_att = True
                 if not only_disp:
                     ok = False
-                if "1)" in g["name"].split(",")[-1]:          # thermal attenuator: adds photons from the bath
-                    pass
+                if "1)" in g["name"].split(",")[-1]:          # thermal attenuator: the Fock simulators document that they do not support it
+                    ok = False
             elif not g["passive"]:
                 if not set(g["modes"]) <= pristine:
                     ok = False
@@ -132,6 +132,9 @@ def gaussian_vs_fock(ctx, pq, rng, quick):
                         ctx.report(f"C01:gaussian-vs-Fock:density_matrix:{sig}:hbar={hb}", f"GaussianSimulator and FockSimulator density matrices differ after {names} (hbar={hb}): max deviation {np.abs(rg - rf).max():.3g}",
                                    {"gates": names, "hbar": hb, "cutoff": cutoff})
                 except Exception as e:  # noqa
+                    if "not supported in this backend" in str(e):
+                        ctx.notes["unsupported_in_backend"] = ctx.notes.get("unsupported_in_backend", 0) + 1
+                        continue
                     ctx.report(f"C01:gauss-fock-raises:{type(e).__name__}:{sig}", f"{type(e).__name__}: {str(e)[:100]} for {names} (hbar={hb})", {"gates": names, "hbar": hb})
                     continue
             for label, other in (("PureFock", pp), ("Fock", pf)):
